@@ -55,6 +55,8 @@ type fakeLimiter struct {
 	refuse map[int]bool // call index -> refuse
 	n      int
 	byCall map[int]int // caller tag (from the context) -> token id
+	// refusals come with a non-nil listener
+	refusalToken bool
 }
 
 type callTagKey struct{}
@@ -67,6 +69,11 @@ func (f *fakeLimiter) Acquire(ctx context.Context) (core.Listener, bool) {
 	}
 	if f.refuse[i] {
 		f.log.add("acquire:%s:%d:refused", f.name, i)
+		if f.refusalToken {
+			// refused == ok is false; the listener value is not nil (the library's own strategies return such a pair):
+			// it must not be touched, any call on it shows up in the event log
+			return &fakeListener{log: f.log, name: f.name + "-refusal-token", id: i}, false
+		}
 		return nil, false
 	}
 	f.log.add("acquire:%s:%d:granted", f.name, i)
@@ -164,10 +171,15 @@ func runC14(r *Run) {
 	excResp := &struct{ x int }{42}
 	excCalls := 0
 	excLimiterSeen := ""
+	// the classifier's error may itself be (or wrap) a gRPC status of another code: the code it CHOSE is what counts
+	excErr := []error{fmt.Errorf("custom exceeded"), fmt.Errorf("custom exceeded"), status.Error(codes.DataLoss, "custom exceeded"), fmt.Errorf("custom exceeded: %w", status.Error(codes.PermissionDenied, "inner"))}[t.Intn(4, "exceeded-err-kind")]
+	if t.Chance(30, "refusal-token") {
+		recvLim.refusalToken, sendLim.refusalToken, unaryLim.refusalToken = true, true, true
+	}
 	excCls := func(ctx context.Context, method string, req interface{}, l core.Limiter) (interface{}, codes.Code, error) {
 		excCalls++
 		excLimiterSeen = fmt.Sprint(l)
-		return excResp, excCode, fmt.Errorf("custom exceeded")
+		return excResp, excCode, excErr
 	}
 	errs := make([]error, 64)
 	for i := range errs {
